@@ -7,7 +7,7 @@
     and therefore the trie structure (up to the hash caches) and the root hash computed from
     it depend on the key-value content alone — not on the order of operations. *)
 From Coq Require Import List NArith Arith Bool.
-From Kardia Require Import C07.Model C07.ProofsBase C07.ProofsMap C07.ProofsCanon C07.ProofsEnc C07.Open.
+From Kardia Require Import C07.Model C07.ProofsBase C07.ProofsMap C07.ProofsCanon C07.ProofsEnc C07.ProofsCache C07.Open.
 Import ListNotations.
 
 (** keybytesToHex is injective on byte strings and yields well-formed keys *)
@@ -101,6 +101,40 @@ Proof.
   split; auto. rewrite E. reflexivity.
 Qed.
 Print Assumptions C07_root_content_only.
+
+(** hasher.hash with caches = hashing from scratch: whenever every cached hash in a trie is the
+    from-scratch hash of its node (which holds initially and is preserved, see below), the hasher
+    returns the from-scratch result, does not change the content, and leaves correct caches *)
+Theorem C07_hash_cache_correct :
+  forall (H : bytes -> bytes) n root, caches_ok H root n ->
+  fst (hash_node H n root) = fst (hash_node H (erase n) root) /\
+  erase (snd (hash_node H n root)) = erase n /\
+  caches_ok H root (snd (hash_node H n root)).
+Proof. exact hash_node_ok. Qed.
+Print Assumptions C07_hash_cache_correct.
+
+(** canonical root, with intermediate hashing: for histories of Update / Delete / Hash() (Hash
+    replaces the root by its cached copy, as Trie.Hash does), the root hash that Trie.Hash
+    reports at the end — computed WITH all caches accumulated on the way — depends on the final
+    content alone: not on the order of operations and not on where Hash() was called *)
+Theorem C07_root_independent_of_hashing :
+  forall (H : bytes -> bytes) d ops1 ops2 n1 n2,
+  Forall (fun o => is_bytes (hop_key o)) ops1 -> Forall (fun o => is_bytes (hop_key o)) ops2 ->
+  (forall kb, is_bytes kb ->
+     content (fun _ => []) (flat_map hop_mop ops1) kb = content (fun _ => []) (flat_map hop_mop ops2) kb) ->
+  hrun H d Empty ops1 = Ok n1 -> hrun H d Empty ops2 = Ok n2 ->
+  fst (trie_hash H n1) = fst (trie_hash H n2) /\
+  (forall kb, is_bytes kb -> trie_get d n1 kb = Ok (content (fun _ => []) (flat_map hop_mop ops1) kb, n1)).
+Proof.
+  intros H d ops1 ops2 n1 n2 H1 H2 Hc R1 R2.
+  destruct (hrun_represents H d ops1 _ Empty represents_empty I H1) as (m1 & E1 & P1 & C1).
+  destruct (hrun_represents H d ops2 _ Empty represents_empty I H2) as (m2 & E2 & P2 & C2).
+  rewrite R1 in E1. rewrite R2 in E2. inversion E1; inversion E2; subst.
+  assert (E : erase m1 = erase m2) by (eapply represents_unique; eauto).
+  destruct (trie_hash_ok H m1 C1) as (T1 & _). destruct (trie_hash_ok H m2 C2) as (T2 & _).
+  split; [rewrite T1, T2, E; reflexivity|]. intros kb Hb. apply represents_get; auto.
+Qed.
+Print Assumptions C07_root_independent_of_hashing.
 
 (** the hypotheses are satisfiable and the functions compute: three keys with a shared prefix
     inserted in two different orders (one history also inserts and deletes a fourth key) *)
